@@ -840,6 +840,23 @@ class Intervals:
             if la is not None and lb is not None and la[0] is not None and lb[0] is not None:
                 # (x + a) op (y + b)
                 d = lb[1] - la[1]
+                # infeasible edges by the difference bounds already known: x - y <= cxy, y - x <= cyx
+                cxy, cyx = self.rel(st, la[0], lb[0]), self.rel(st, lb[0], la[0])
+                dead = False
+                if op == "<":
+                    dead = cyx is not None and cyx <= -d
+                elif op == "<=":
+                    dead = cyx is not None and cyx <= -d - 1
+                elif op == ">":
+                    dead = cxy is not None and cxy <= d
+                elif op == ">=":
+                    dead = cxy is not None and cxy <= d - 1
+                elif op == "==":
+                    dead = (cxy is not None and cxy <= d - 1) or (cyx is not None and cyx <= -d - 1)
+                elif op == "!=":
+                    dead = cxy is not None and cxy <= d and cyx is not None and cyx <= -d
+                if dead:
+                    return None
                 if op == "<":
                     self._set_rel(st, la[0], lb[0], d - 1)
                 elif op == "<=":
@@ -1003,7 +1020,9 @@ class Intervals:
             c = const_of(n)
             if c is not None and -(1 << 40) < c < (1 << 40):
                 ths.update((c, c - 1, c + 1))
-        for v in self.entry.values():
+        for kk, v in self.entry.items():
+            if self._is_rel(kk) or self._is_diff(kk):
+                continue
             for x in v:
                 if x is not None:
                     ths.add(x)
